@@ -10,12 +10,16 @@
                          constraints are undecided, queue discipline)
      proofs/DlGraph      `walk E i j g` a path of edges of E from i to j of length g, `neg_cycle E`
      proofs/DlHist       `wf_run`: the protocol of sat_core (drain before a decision, pop after a conflict, creation at root)
+     proofs/DlThm        `esat x e`: the valuation x of the time points satisfies the edge e = (from, to, d), x to - x from <= d;
+                         `models x s`: x satisfies every edge of `edges s`; `csat x f t g`: x t - x f <= g
+     proofs/DlModel      the potential that witnesses satisfiability (minimum over a virtual source; infinite entries are
+                         simply no candidates of the minimum)
      `fault s = 0`       no value left the overflow-free range and no explanation walk failed (the theorems below show the
                          latter never happens); it is reported by the differential check if it ever does. *)
 From Coq Require Import List ZArith Arith Bool Qcanon.
 From ORatio Require Import smt.DlDom smt.Dl smt.DlInst proofs.DlOrd_Proofs proofs.DlGraph_Proofs proofs.DlSpec_Proofs
   proofs.DlExpl_Proofs proofs.DlStep_Proofs proofs.DlLemma_Proofs proofs.DlProp_Proofs proofs.DlUndo_Proofs proofs.DlHist_Proofs
-  proofs.DlThm_Proofs proofs.DlIdl_Proofs proofs.DlRdl_Proofs.
+  proofs.DlThm_Proofs proofs.DlModel_Proofs proofs.DlIdl_Proofs proofs.DlRdl_Proofs.
 Import ListNotations.
 Local Open Scope nat_scope.
 
@@ -98,6 +102,54 @@ Theorem C10_idl_pop_restores : forall sat (s : state Z) os,
 Proof. exact (fun sat => pop_restores Zog Z (idl_dom sat) (idl_spec sat)). Qed.
 Print Assumptions C10_idl_pop_restores.
 
+(* ---- the satisfiability direction: "no conflict" means satisfiable, and the distances are tight ---- *)
+(* after ANY history without a pending conflict the asserted edges have a model in Z *)
+Theorem C10_idl_satisfiable : forall sat size os,
+  0 < size -> wf_run Z (idl_dom sat) (idl_init sat size) os ->
+  let s := Dl.run Z (idl_dom sat) (idl_init sat size) os in
+  fault s = 0 -> confl s = false ->
+  exists x : nat -> Zog, models Zog Z (idl_dom sat) (idl_spec sat) x s.
+Proof. exact (fun sat => dl_satisfiable Zog Z (idl_dom sat) (idl_spec sat)). Qed.
+Print Assumptions C10_idl_satisfiable.
+
+(* every finite distance is an upper bound of x j - x i over the models AND is attained by one of them; an infinite
+   distance is exceeded by models: for every K there is a model with x j - x i >= K *)
+Theorem C10_idl_distance_attained : forall sat size os,
+  0 < size -> wf_run Z (idl_dom sat) (idl_init sat size) os ->
+  let s := Dl.run Z (idl_dom sat) (idl_init sat size) os in
+  fault s = 0 -> confl s = false ->
+  forall i j, i < n_vars s -> j < n_vars s ->
+    match dval Zog Z (idl_dom sat) (idl_spec sat) s i j with
+    | Fin g => (forall x, models Zog Z (idl_dom sat) (idl_spec sat) x s -> x j +o -o x i <=o g) /\
+               exists x, models Zog Z (idl_dom sat) (idl_spec sat) x s /\ x j +o -o x i = g
+    | Inf => forall K, exists x, models Zog Z (idl_dom sat) (idl_spec sat) x s /\ K <=o x j +o -o x i
+    end.
+Proof. exact (fun sat => dl_distance_attained Zog Z (idl_dom sat) (idl_spec sat)). Qed.
+Print Assumptions C10_idl_distance_attained.
+
+(* once propagation has drained the queue, the asserted edges are the constraints of ALL assigned constraint literals:
+   a model satisfies  to - from <= d  for every true one and  from - to <= gpred d  (= -d-1, resp. -d-epsilon, i.e.
+   to - from > d) for every false one; so "no conflict reported" means "the current assignment of the difference
+   constraints is satisfiable" *)
+Theorem C10_idl_assignment_satisfiable : forall sat size os,
+  0 < size -> wf_run Z (idl_dom sat) (idl_init sat size) os ->
+  let s := Dl.run Z (idl_dom sat) (idl_init sat size) os in
+  fault s = 0 -> confl s = false -> prop_q s = [] ->
+  exists x : nat -> Zog, forall v c g, vd_find v (var_dists s) = Some c -> wt (idl_spec sat) (c_dist c) g ->
+    (value_var s v = LT -> csat Zog x (c_from c) (c_to c) g) /\
+    (value_var s v = LF -> csat Zog x (c_to c) (c_from c) (gpred (idl_spec sat) g)).
+Proof. exact (fun sat => dl_assigned_satisfiable Zog Z (idl_dom sat) (idl_spec sat)). Qed.
+Print Assumptions C10_idl_assignment_satisfiable.
+
+(* the same for any given model of the asserted edges (in particular for the ones that attain a distance) *)
+Theorem C10_idl_model_satisfies_assignment : forall sat (s : state Z) x v c g,
+  good Zog Z (idl_dom sat) (idl_spec sat) s -> prop_q s = [] -> models Zog Z (idl_dom sat) (idl_spec sat) x s ->
+  vd_find v (var_dists s) = Some c -> wt (idl_spec sat) (c_dist c) g ->
+  (value_var s v = LT -> csat Zog x (c_from c) (c_to c) g) /\
+  (value_var s v = LF -> csat Zog x (c_to c) (c_from c) (gpred (idl_spec sat) g)).
+Proof. exact (fun sat => models_assigned Zog Z (idl_dom sat) (idl_spec sat)). Qed.
+Print Assumptions C10_idl_model_satisfies_assignment.
+
 (* ---------------------------------------------------------------------------------------------- *)
 (* RDL (for both variants of propagate(from,to,dist): guard = false is the pinned code, guard = true the repaired one) *)
 Theorem C10_rdl_invariant : forall guard size os,
@@ -160,6 +212,54 @@ Theorem C10_rdl_pop_restores : forall guard (s : state qd) os,
 Proof. exact (fun guard => pop_restores QDog qd (rdl_dom guard) (rdl_spec guard)). Qed.
 Print Assumptions C10_rdl_pop_restores.
 
+(* ---- the satisfiability direction: "no conflict" means satisfiable, and the distances are tight ---- *)
+(* after ANY history without a pending conflict the asserted edges have a model in Q x Q (rational part, infinitesimal part; lexicographic) *)
+Theorem C10_rdl_satisfiable : forall guard size os,
+  0 < size -> wf_run qd (rdl_dom guard) (rdl_init guard size) os ->
+  let s := Dl.run qd (rdl_dom guard) (rdl_init guard size) os in
+  fault s = 0 -> confl s = false ->
+  exists x : nat -> QDog, models QDog qd (rdl_dom guard) (rdl_spec guard) x s.
+Proof. exact (fun guard => dl_satisfiable QDog qd (rdl_dom guard) (rdl_spec guard)). Qed.
+Print Assumptions C10_rdl_satisfiable.
+
+(* every finite distance is an upper bound of x j - x i over the models AND is attained by one of them; an infinite
+   distance is exceeded by models: for every K there is a model with x j - x i >= K *)
+Theorem C10_rdl_distance_attained : forall guard size os,
+  0 < size -> wf_run qd (rdl_dom guard) (rdl_init guard size) os ->
+  let s := Dl.run qd (rdl_dom guard) (rdl_init guard size) os in
+  fault s = 0 -> confl s = false ->
+  forall i j, i < n_vars s -> j < n_vars s ->
+    match dval QDog qd (rdl_dom guard) (rdl_spec guard) s i j with
+    | Fin g => (forall x, models QDog qd (rdl_dom guard) (rdl_spec guard) x s -> x j +o -o x i <=o g) /\
+               exists x, models QDog qd (rdl_dom guard) (rdl_spec guard) x s /\ x j +o -o x i = g
+    | Inf => forall K, exists x, models QDog qd (rdl_dom guard) (rdl_spec guard) x s /\ K <=o x j +o -o x i
+    end.
+Proof. exact (fun guard => dl_distance_attained QDog qd (rdl_dom guard) (rdl_spec guard)). Qed.
+Print Assumptions C10_rdl_distance_attained.
+
+(* once propagation has drained the queue, the asserted edges are the constraints of ALL assigned constraint literals:
+   a model satisfies  to - from <= d  for every true one and  from - to <= gpred d  (= -d-1, resp. -d-epsilon, i.e.
+   to - from > d) for every false one; so "no conflict reported" means "the current assignment of the difference
+   constraints is satisfiable" *)
+Theorem C10_rdl_assignment_satisfiable : forall guard size os,
+  0 < size -> wf_run qd (rdl_dom guard) (rdl_init guard size) os ->
+  let s := Dl.run qd (rdl_dom guard) (rdl_init guard size) os in
+  fault s = 0 -> confl s = false -> prop_q s = [] ->
+  exists x : nat -> QDog, forall v c g, vd_find v (var_dists s) = Some c -> wt (rdl_spec guard) (c_dist c) g ->
+    (value_var s v = LT -> csat QDog x (c_from c) (c_to c) g) /\
+    (value_var s v = LF -> csat QDog x (c_to c) (c_from c) (gpred (rdl_spec guard) g)).
+Proof. exact (fun guard => dl_assigned_satisfiable QDog qd (rdl_dom guard) (rdl_spec guard)). Qed.
+Print Assumptions C10_rdl_assignment_satisfiable.
+
+(* the same for any given model of the asserted edges (in particular for the ones that attain a distance) *)
+Theorem C10_rdl_model_satisfies_assignment : forall guard (s : state qd) x v c g,
+  good QDog qd (rdl_dom guard) (rdl_spec guard) s -> prop_q s = [] -> models QDog qd (rdl_dom guard) (rdl_spec guard) x s ->
+  vd_find v (var_dists s) = Some c -> wt (rdl_spec guard) (c_dist c) g ->
+  (value_var s v = LT -> csat QDog x (c_from c) (c_to c) g) /\
+  (value_var s v = LF -> csat QDog x (c_to c) (c_from c) (gpred (rdl_spec guard) g)).
+Proof. exact (fun guard => models_assigned QDog qd (rdl_dom guard) (rdl_spec guard)). Qed.
+Print Assumptions C10_rdl_model_satisfies_assignment.
+
 (* with the repaired propagate(from,to,dist) an infinite distance is literally +inf (no infinitesimal residue) *)
 Theorem C10_rdl_guarded_infinite_is_inf : forall (s : state qd) i j,
   good QDog qd (rdl_dom true) (rdl_spec true) s ->
@@ -180,3 +280,40 @@ Example C10_idl_example :
   wf_run Z (idl_dom false) (idl_init false 5) os /\ fault s = 0 /\ confl s = false /\
   Dl.dget Z (idl_dom false) s 1 2 = 5%Z /\ Dl.dget Z (idl_dom false) s 2 1 = (-3)%Z /\ n_vars s = 3.
 Proof. vm_compute. repeat split; try reflexivity; try discriminate; auto with arith. Qed.
+
+(* a 3-node network whose bound is attained:  x2 - x1 <= 5,  x3 - x2 <= 2,  x1 - x3 <= -4  asserted one after the other.
+   The matrix says dist(1,3) = 7; the theorems above give integers x with all three constraints and x3 - x1 = 7. *)
+Example C10_idl_attained_example :
+  let os := [ONewVar Z; ONewVar Z; ONewVar Z; ONewDistance Z 1 2 5%Z; ONewDistance Z 2 3 2%Z; ONewDistance Z 3 1 (-4)%Z;
+             OEnqueue Z (1, true); OPropOne Z; OEnqueue Z (2, true); OPropOne Z; OPush Z; OEnqueue Z (3, true); OPropOne Z] in
+  let s := Dl.run Z (idl_dom false) (idl_init false 5) os in
+  wf_run Z (idl_dom false) (idl_init false 5) os /\ fault s = 0 /\ confl s = false /\ prop_q s = [] /\ n_vars s = 4 /\
+  Dl.dget Z (idl_dom false) s 1 3 = 7%Z /\
+  exists x : nat -> Z, (x 2%nat - x 1%nat <= 5 /\ x 3%nat - x 2%nat <= 2 /\ x 1%nat - x 3%nat <= -4 /\ x 3%nat - x 1%nat = 7)%Z.
+Proof.
+  intros os s.
+  assert (W : wf_run Z (idl_dom false) (idl_init false 5) os) by (vm_compute; repeat split; try reflexivity; try discriminate; auto with arith).
+  assert (F : fault s = 0) by (vm_compute; reflexivity).
+  assert (C : confl s = false) by (vm_compute; reflexivity).
+  assert (Q : prop_q s = []) by (vm_compute; reflexivity).
+  assert (N : n_vars s = 4) by (vm_compute; reflexivity).
+  assert (D13 : Dl.dget Z (idl_dom false) s 1 3 = 7%Z) by (vm_compute; reflexivity).
+  repeat (split; [assumption |]).
+  assert (H5 : 0 < 5) by auto with arith.
+  pose proof (C10_idl_invariant false 5 os H5 W F C) as G. fold s in G.
+  pose proof (C10_idl_distance_attained false 5 os H5 W F C 1 3) as A. fold s in A.
+  assert (E13 : dval Zog Z (idl_dom false) (idl_spec false) s 1 3 = Fin (7%Z : Zog)).
+  { unfold dval. rewrite D13. reflexivity. }
+  rewrite E13 in A. destruct A as [_ (x & M & Hx)]; [rewrite N; auto with arith | rewrite N; auto with arith |].
+  exists x.
+  assert (V : forall v f t d, vd_find v (var_dists s) = Some (mkcstr f t d) -> value_var s v = LT -> (Z.abs d < LIM)%Z ->
+              (x t - x f <= d)%Z).
+  { intros v f t d Hc Hv Hd.
+    destruct (C10_idl_model_satisfies_assignment false s x v (mkcstr f t d) d G Q M Hc) as [T _]; [split; [exact Hd | reflexivity] |].
+    specialize (T Hv). unfold csat, gle in T. cbn in T. Lia.lia. }
+  pose proof (V 1 1 2 5%Z) as V1. pose proof (V 2 2 3 2%Z) as V2. pose proof (V 3 3 1 (-4)%Z) as V3.
+  cbn in Hx.
+  split; [apply V1; vm_compute; reflexivity |]. split; [apply V2; vm_compute; reflexivity |]. split; [apply V3; vm_compute; reflexivity |].
+  Lia.lia.
+Qed.
+Print Assumptions C10_idl_attained_example.
